@@ -138,7 +138,7 @@ class StepMap(Mappable):
         index = recover_index(recover)
         old_index = 2 if self.inverted else 1
         new_index = 1 if self.inverted else 2
-        for i in range(len(self.ranges), 3):
+        for i in range(0, len(self.ranges), 3):
             start = self.ranges[i] - (diff if self.inverted else 0)
             if start > pos:
                 break
